@@ -250,6 +250,18 @@ Theorem C10_tree_quiescent_every_live_parent_partial (root : aid) (par : aid -> 
     (forall c, t_reg s (path_of c) = Some c -> par c = Some p -> ch_get (path_of c) (t_children s p) = Some c).
 Proof. exact (fun H1 H2 s p Hr Q1 Q2 => tree_live_parent_quiescent root par path_of H1 H2 s p Hr (conj Q1 Q2)). Qed.
 
+(** uniqueness of registration (the registration step is an atomic LoadOrStore, taken under actorOfLock at the root): a path
+    names at most one live context. Of two distinct contexts with the same path that have both been registered at some time -
+    two successful spawns under one name - at least one is dead and no longer registered, in EVERY reachable state. Tied to the
+    code by the duplicate-name rounds of the harness (K goroutines call System.ActorOf with one name at once, OnPrelaunch 1-3 ms;
+    monitor tree-duplicate-name). *)
+Theorem C10_tree_registration_unique (root : aid) (par : aid -> option aid) (path_of : aid -> apath) :
+  (forall c, c <> root -> path_of c <> path_of root) -> par root = None ->
+  forall s c c', treachable root par path_of s ->
+    t_pub s c = true -> t_pub s c' = true -> c <> root -> c' <> root -> path_of c = path_of c' -> c <> c' ->
+    (t_st s c = Killed /\ t_reg s (path_of c) <> Some c) \/ (t_st s c' = Killed /\ t_reg s (path_of c') <> Some c').
+Proof. exact (tree_registration_unique root par path_of). Qed.
+
 (** the schedule that used to leave a dead context in the root's table (the recorded finding C10-root-stale-child, repaired
     by b0e210b; the harness forces the same schedule on the real code) is still enabled step by step and now ends, quiescent,
     with the root's table empty *)
@@ -324,6 +336,7 @@ Print Assumptions C10_tree_actorOfLock_serialises.
 Print Assumptions C10_tree_registration_stable.
 Print Assumptions C10_tree_every_live_parent_partial.
 Print Assumptions C10_tree_quiescent_every_live_parent_partial.
+Print Assumptions C10_tree_registration_unique.
 Print Assumptions C10_tree_former_stale_child_schedule_repaired.
 Print Assumptions C10_panic_close_sound.
 Print Assumptions C10_panic_sites_guarded.
